@@ -237,20 +237,22 @@ class CircuitTemplate(AbstractBaseTemplate):
         if not description:
             description = self.__doc__
 
+        # a template derived with in_place=False must not share mutable parts with this one: the parts that are not
+        # updated are copied just like the updated ones (update_dict / update_edges copy their base)
         if nodes:
             nodes = update_dict(self.nodes, nodes)
         else:
-            nodes = self.nodes
+            nodes = self.nodes if in_place else deepcopy(self.nodes)
 
         if circuits:
             circuits = update_dict(self.circuits, circuits)
         else:
-            circuits = self.circuits
+            circuits = self.circuits if in_place else deepcopy(self.circuits)
 
         if edges:
             edges = update_edges(self.edges, edges)
         else:
-            edges = self.edges
+            edges = self.edges if in_place else deepcopy(self.edges)
 
         # either create new instance with updates or store updates on current template instance
         if not in_place:
